@@ -71,6 +71,7 @@ fn write_script(dir: &Path, g: &Gen) -> String {
                 "not-executable" => ("cat > /dev/null\n".to_owned(), false),
                 "exit-3" => (format!("cat > /dev/null\ncat reply.{name}\nexit 3\n"), true),
                 "killed" => ("cat > /dev/null\nkill -9 $$\n".to_owned(), true),
+                "killed-after-reply" => (format!("cat > /dev/null\ncat reply.{name}\nkill -9 $$\n"), true),
                 "stderr" => (format!("cat > /dev/null\necho 'something went wrong' >&2\ncat reply.{name}\n"), true),
                 "empty-reply" => ("cat > /dev/null\n".to_owned(), true),
                 "truncated" => (format!("cat > /dev/null\nhead -c {cut} reply.{name}\n"), true),
@@ -103,7 +104,7 @@ fn run_slicec(bin: &str, dir: &Path, args: &[String]) -> Outcome {
 }
 
 pub fn run() -> i32 {
-    let mut rep = Report::new("generators", "the real slicec binary x lists of <= 3 generator scripts: 9 failure modes (missing, not executable, exit 3, killed by SIGKILL, stderr output, empty reply, undecodable bytes, a count with nothing behind it, EVERY proper prefix of a valid two-file reply) in every position among well-behaved generators with different arguments; identical / different / absent pre-existing output files; with and without an output directory");
+    let mut rep = Report::new("generators", "the real slicec binary x lists of <= 3 generator scripts: 10 failure modes (missing, killed after a complete reply, not executable, exit 3, killed by SIGKILL, stderr output, empty reply, undecodable bytes, a count with nothing behind it, EVERY proper prefix of a valid two-file reply) in every position among well-behaved generators with different arguments; pairs of failing generators in one list (each named by exactly one error); identical / different / absent pre-existing output files; with and without an output directory");
     let Ok(bin) = std::env::var("VERIF_SLICEC_BIN") else { eprintln!("VERIF_SLICEC_BIN not set"); return 2; };
     let base = std::env::var("VERIF_SCRATCH").map(PathBuf::from).unwrap_or_else(|_| std::env::temp_dir());
     let root = base.join(format!("slicec_generators_{}", std::process::id()));
@@ -112,7 +113,7 @@ pub fn run() -> i32 {
     let two = vec![("a/first.txt".to_owned(), "FIRST\n".to_owned()), ("second.txt".to_owned(), "SECOND é\n".to_owned())];
     let full = enc_reply(&two);
     let mut bads: Vec<Gen> = vec![];
-    for mode in ["missing", "not-executable", "exit-3", "killed", "stderr", "empty-reply", "garbage", "trailing-garbage-count"] {
+    for mode in ["missing", "not-executable", "exit-3", "killed", "killed-after-reply", "stderr", "empty-reply", "garbage", "trailing-garbage-count"] {
         bads.push(Gen::Bad { name: format!("bad_{}", mode.replace('-', "_")), mode, files: vec![("from_bad.txt".to_owned(), "MUST NOT APPEAR\n".to_owned())], cut: 0 });
     }
     for cut in 0..full.len() {
@@ -130,6 +131,15 @@ pub fn run() -> i32 {
             scenarios.push((vec![good1.clone(), b.clone(), good2.clone()], false));
             scenarios.push((vec![good1.clone(), good2.clone(), b.clone()], true));
             scenarios.push((vec![b.clone()], true));
+        }
+    }
+    // TWO failing generators in one list (each error must name its own generator), around and between well-behaved ones
+    {
+        let by = |m: &str| bads.iter().find(|b| matches!(b, Gen::Bad { mode, .. } if *mode == m)).unwrap().clone();
+        for (x, y) in [("missing", "exit-3"), ("exit-3", "missing"), ("not-executable", "stderr"), ("stderr", "killed"), ("missing", "garbage"), ("empty-reply", "exit-3"), ("killed-after-reply", "missing")] {
+            scenarios.push((vec![by(x), by(y), good1.clone()], true));
+            scenarios.push((vec![by(x), good2.clone(), by(y)], false));
+            scenarios.push((vec![good1.clone(), by(x), by(y), good2.clone()], true));
         }
     }
     for (si, (gens, with_outdir)) in scenarios.iter().enumerate() {
@@ -171,7 +181,8 @@ pub fn run() -> i32 {
         for (g, rel) in gens.iter().zip(&rels) {
             match g {
                 Gen::Bad { name, files, .. } => {
-                    if !o.stderr.lines().any(|l| l.starts_with("error") && l.contains(&format!("'{rel}'"))) { problem = Some((format!("an error naming the failed generator {rel}"), format!("stderr: {:?}", o.stderr.chars().take(400).collect::<String>()))); break; }
+                    let n_named = o.stderr.lines().filter(|l| l.starts_with("error") && l.contains(&format!("'{rel}'"))).count();
+                    if n_named != 1 { problem = Some((format!("exactly one error naming the failed generator {rel}"), format!("{n_named} such line(s); stderr: {:?}", o.stderr.chars().take(500).collect::<String>()))); break; }
                     for (p, _) in files {
                         // good generators never announce these names, so their presence can only come from the failed reply
                         if outdir.join(p).exists() { problem = Some((format!("nothing written from the reply of the failed generator {name}"), format!("{} exists", outdir.join(p).display()))); break; }
@@ -221,7 +232,14 @@ pub fn run() -> i32 {
         fs::set_permissions(&script, fs::Permissions::from_mode(0o755)).unwrap();
         let good = write_script(&dir, &good1);
         let mut args: Vec<String> = vec!["in.slice".into(), "--disable-color".into(), "-O".into(), "out".into()];
-        let order: Vec<String> = if position == 0 { vec!["./gen_early.sh".into(), format!("{good},lang=cs,v=1")] } else { vec![format!("{good},lang=cs,v=1"), "./gen_early.sh".into()] };
+        // control: good1 alone on the same input -- what it must receive whatever its neighbours do
+        let control_args: Vec<String> = vec!["in.slice".into(), "--disable-color".into(), "-O".into(), "out".into(), "-G".into(), format!("{good},lang=cs,v=1")];
+        let _ = run_slicec(&bin, &dir, &control_args);
+        let control_req = fs::read(dir.join("req.good1")).unwrap_or_default();
+        let _ = fs::remove_file(dir.join("req.good1"));
+        let _ = fs::remove_file(dir.join("ran.good1"));
+        let _ = fs::remove_file(dir.join("out/g1/out.txt"));
+        let order: Vec<String> = if position == 0 { vec!["./gen_early.sh,secret=yes".into(), format!("{good},lang=cs,v=1")] } else { vec![format!("{good},lang=cs,v=1"), "./gen_early.sh,secret=yes".into()] };
         for g in order { args.push("-G".into()); args.push(g); }
         let label = format!("a generator that closes stdin early (position {position}) next to good1, request > 64 KiB");
         rep.case(true, || label.clone());
@@ -236,6 +254,10 @@ pub fn run() -> i32 {
                 if named == written { rep.counterexample(&label, "either an error naming the generator and nothing written from it, or its reply honoured", &format!("error reported: {named}, early.txt written: {written}")); }
                 else if (c != 0) != named { rep.counterexample(&label, "a non-zero exit status exactly when the generator is reported as failed", &format!("exit {c}, error reported: {named}")); }
                 else if !dir.join("ran.good1").exists() || fs::read_to_string(dir.join("out/g1/out.txt")).ok().as_deref() != Some("ONE\n") { rep.counterexample(&label, "the well-behaved generator still runs and is honoured", "its marker or file is missing"); }
+                else {
+                    let req = fs::read(dir.join("req.good1")).unwrap_or_default();
+                    if control_req.is_empty() || req != control_req { rep.counterexample(&label, "good1 receives the identical request followed by ITS OWN arguments (what it receives when it runs alone)", &format!("{} bytes, alone it receives {} bytes", req.len(), control_req.len())); }
+                }
             }
         }
     }
